@@ -40,7 +40,7 @@ def replay_main(ctx, fuzzbin, path):
         print("replay file has no request sequence (it names a broken proof obligation): %s" % json.dumps(obj)[:600])
         ctx.cleanup()
         sys.exit(1)
-    outs = restlib.run_cases(ctx, fuzzbin, [dict(target=case["target"], state=case["state"], reqs=case["reqs"])], tag="replay")
+    outs = restlib.run_cases(ctx, fuzzbin, [dict(target=case["target"], state=case["state"], reqs=case["reqs"], **({"load": True} if case.get("load") else {}))], tag="replay")
     o = outs[0]
     for r, x in zip(case["reqs"], o.get("res") or []):
         x.pop("stack", None)
@@ -110,6 +110,7 @@ def main(ctx, replay=None):
         cases += gen.scenarios(t, 100 if quick else 2000)
         cases += gen.random_cases(t, 350 if quick else 6000)
     cases += gen.chain_matrix()
+    cases += gen.under_load()
     outs = restlib.run_cases(ctx, fuzzbin, cases, tag="fz")
 
     def classes(cases_, outs_):
@@ -188,7 +189,7 @@ def main(ctx, replay=None):
         else:
             nviol += 1
             obj = dict(property=PID, kind="request sequence after which the process is dead / wedged / panicked",
-                       target=small["target"], state=small["state"], reqs=small["reqs"], observed=entry["observed"],
+                       target=small["target"], state=small["state"], reqs=small["reqs"], load=bool(small.get("load")), observed=entry["observed"],
                        replay_cmd="bin/vcheck C14 --replay <this file>")
             vlib.violation(ctx, obj, suffix="-%d" % nviol)
         reported.append(entry)
